@@ -17,7 +17,7 @@ VAR_SETS = {
     "big": lambda n: [2, 9, 16, 11, 30, 23][:n],
     "shift": lambda n: list(range(3, 3 + n)),
 }
-DISCRETE = ("emb", "cat_probs", "cat_logits", "cat_softmax", "bin")
+DISCRETE = ("emb", "cat_probs", "cat_logits", "cat_softmax", "cat_softmax0", "bin")
 
 
 def dy(rng, lo=-8, hi=8, den=4, nonzero=False):
@@ -92,7 +92,7 @@ class Gen:
     # ---- parameters ----
     def weight_param(self, shape, arity=1, normalized=False):
         rng, o = self.rng, self.o
-        kinds = ["softmax", "exp", "pos"] if o.get("monotone") else ["tensor", "tensor", "softmax", "exp", "const", "sq"]
+        kinds = ["softmax", "exp", "pos", "clamp"] if o.get("monotone") else ["tensor", "tensor", "softmax", "exp", "const", "sq", "clamp", "sigmoid"]
         if normalized:
             kinds = ["softmax"]
         if o.get("cplx"):
@@ -123,6 +123,17 @@ class Gen:
             return P.Parameter.from_input(t)
         if k == "const":
             return P.Parameter.from_input(P.ConstantParameter(*shape, value=dy_array(rng, shape)))
+        if k == "clamp":
+            # two-sided (or one-sided) clamp with values on both sides of the bounds
+            t = tensor(dy_array(rng, shape, 0, 10, 4))
+            lo, hi = rng.choice([(0.5, 1.75), (0.5, 1.75), (0.25, None), (None, 1.5)])
+            if o.get("monotone") and lo is None:
+                lo = 0.25
+            return P.Parameter.from_unary(P.ClampParameter(shape, vmin=lo, vmax=hi), t)
+        if k == "sigmoid":
+            t = tensor(dy_array(rng, shape, -6, 6, 4))
+            return P.Parameter.from_unary(P.ScaledSigmoidParameter(shape, vmin=0.25, vmax=rng.choice([1.0, 2.0])), t) if rng.random() < 0.5 else \
+                P.Parameter.from_unary(P.SigmoidParameter(shape), t)
         t = tensor(dy_array(rng, shape, -4, 4))
         self.tensors.append(t)
         if k == "softmax":
@@ -154,13 +165,16 @@ class Gen:
             else:
                 w = P.Parameter.from_input(tensor(dy_array(rng, (K, N))))
             return L.EmbeddingLayer(sc, K, num_states=N, weight=w)
-        if kind in ("cat_probs", "cat_logits", "cat_softmax", "cat_unnorm"):
+        if kind in ("cat_probs", "cat_logits", "cat_softmax", "cat_unnorm", "cat_softmax0"):
             N = dpar
             self.doms[v] = ("disc", N)
             if kind == "cat_probs":
                 return L.CategoricalLayer(sc, K, num_categories=N, probs=P.Parameter.from_input(tensor(prob_rows(rng, K, N))))
             if kind == "cat_unnorm":
                 return L.CategoricalLayer(sc, K, num_categories=N, probs=P.Parameter.from_input(tensor(dy_array(rng, (K, N), 1, 8))))
+            if kind == "cat_softmax0":   # probabilities normalised over the units axis (not a normalised layer)
+                t = tensor(dy_array(rng, (K, N), -4, 4))
+                return L.CategoricalLayer(sc, K, num_categories=N, probs=P.Parameter.from_unary(P.SoftmaxParameter((K, N), axis=rng.choice([0, -2])), t))
             if kind == "cat_softmax":
                 t = tensor(dy_array(rng, (K, N), -4, 4))
                 return L.CategoricalLayer(sc, K, num_categories=N, probs=P.Parameter.from_unary(P.SoftmaxParameter((K, N), axis=1), t))
